@@ -307,7 +307,27 @@ func init() {
 		Rule: "evaluations = seeded simulated runs (every cipher except nil, FEC on and off, listener and dialled paths, the full fault swarm), each with 5-155 injections at seeded quiescent points: a genuine datagram captured from the traffic towards the target socket (data, parity, ACK-only, probes) is corrupted in a way the check is guaranteed to catch - AEAD: 1-4 bit flips anywhere, the tag altered, truncation; CRC ciphers: decrypted with the harness's own cipher, an error burst of 1..32 bits inside the CRC-covered bytes or an altered CRC field, re-encrypted - or a too-short / random datagram is built (the harness's decoder must agree that it fails; samples that pass by 2^-32 chance are discarded), claimed to come from the real peer or from an unknown address. Before and after the injection (no clock advance, quiescence in between) a reflection walk hashes every field of every session and of the listener per field path, and the SNMP counters are read: everything must be identical except InCsumErrors (+1 when the datagram is long enough to be checked); no datagram may be emitted, no call return, no session appear. Non-trivial = at least 3 corrupted datagrams were injected and payload was delivered; distinct = distinct event-log hashes",
 		Real: realSession, Stub: stubSession,
 		Assumptions: append([]string{"the snapshot skips channels, funcs, sync primitives, timers and the interfaces holding transport, cipher and codec objects (their internals are scratch or foreign); everything else reachable from a session or the listener is compared"}, assumeCommon...),
-		WantProbes: []string{"corrupted:data/burst", "corrupted:parity/burst", "corrupted:ack/burst", "corrupted:short", "corrupted:noise", "corrupted-datagrams-injected"},
-		nontrivial: func(r *proto.RunResult, nf int) bool { return r.Progress && r.Probes["corrupted-datagrams-injected"] >= 3 },
+		WantProbes:  []string{"corrupted:data/burst", "corrupted:parity/burst", "corrupted:ack/burst", "corrupted:short", "corrupted:noise", "corrupted-datagrams-injected"},
+		nontrivial: func(r *proto.RunResult, nf int) bool {
+			return r.Progress && r.Probes["corrupted-datagrams-injected"] >= 3
+		},
+	}
+	plans["C14"] = &propPlan{
+		Level: "exploration", Race: true, NoDeterminism: true,
+		Items: []planItem{
+			{Scenario: "race", Stratum: "", Quick: 160, Thorough: 6000, PerJob: 1},
+		},
+		QuickBudget: 70 * time.Second, ThoroughBudget: 28 * time.Minute, PerRunTimeout: 300 * time.Second,
+		Rule: "evaluations = seeded free-running runs (Mode R) of a binary built with -race at GOMAXPROCS=16: one listener, 1-3 dialled sessions sharing one cipher object, accepted sessions sharing the listener's; per session 4-8 goroutines loop over the supported public methods (Read, Write, WriteBuffers, Close, SetDeadline/SetReadDeadline/SetWriteDeadline, SetWindowSize, SetMtu, SetNoDelay, SetACKNoDelay, SetWriteDelay, SetRateLimit, SetOOBHandler, SendOOB, GetOOBMaxSize, GetConv, GetRTO/GetSRTT/GetSRTTVar, LocalAddr/RemoteAddr, SetReadBuffer/SetWriteBuffer/SetDSCP, Control, Snmp Copy/ToSlice) and 2 goroutines over the listener's (Accept, SetDeadline, Addr, SetReadBuffer/WriteBuffer/DSCP, Control) with traffic flowing under loss and duplication on the fake clock; every cipher / FEC configuration over the batch. The oracle is the Go race detector; reports are de-duplicated by the pair of first library frames. The seed fixes workload, configuration and fault rates, NOT the interleaving. Non-trivial = segments were exchanged; distinct = distinct event-log hashes (the log holds the configuration line only)",
+		Real: realSession, Stub: []string{"net.PacketConn (in-memory, free-running: per-datagram timers)", "OS clock (testing/synctest fake clock)", "nonce entropy (seeded, mutex-protected)"},
+		Assumptions: []string{
+			"weaker form of the technique: the interleaving is the Go runtime's, not the seed's; a violation's replay is 'same seed, same workload', and the reproduction rate is measured and written into the replay file rather than promised",
+			"the detector is happens-before based: it flags an unsynchronised pair whenever both accesses execute in a run, largely independent of timing, but only for code the workload reaches",
+			"the in-memory transport adds a happens-before edge from each sender's post-processing goroutine to the receiver's read loop (a real socket would not), which can hide races between DIFFERENT sessions on shared globals",
+			"deprecated methods (SetStreamMode, SetDUP) and SetLogger are excluded, as the property says",
+			"the pool sanitizer is off in this mode (its mutex would add happens-before edges)",
+		},
+		WantProbes: []string{"segments-in", "retransmitted", "fec-recovered", "oob-packets", "sessions"},
+		nontrivial: func(r *proto.RunResult, nf int) bool { return r.Progress },
 	}
 }
